@@ -11,7 +11,7 @@ import itertools
 import os
 
 from checks import _rc
-from vlib import advexec, gen, storetrace
+from vlib import advexec, gen, runner, storetrace
 
 PROPERTY = "C05"
 LEVEL = "exploration"
@@ -19,6 +19,8 @@ TIMEOUT = {"quick": 1500, "thorough": 7200}
 RULE = (
     "recipes from vlib.gen.Gen biased to rechunks (regular and allow_irregular, multi-stage under small allowed_mem), "
     "multi-output ops and reductions with structured intermediates; every task runs one at a time with attribution. "
+    "Plus 24 (quick) / 160 (thorough) per shard direct rechunks of 2-D/3-D arrays (14-56 per axis, thin chunks turned "
+    "through 90 degrees, allow_irregular False/True/default) under budgets of 150-1200 elements, which need 2+ copy stages. "
     "Non-trivial = run completed and >= 1 produced array with more than one stored chunk; distinct by hash of (recipe, configuration)"
 )
 ASSUMPTIONS = [
@@ -33,7 +35,7 @@ PER_SHARD = {"quick": 80, "thorough": 480}
 def shards(tier, seed):
     return [
         {"n": PER_SHARD[tier], "maxdim": 9 if tier == "quick" else 13, "depth": 4 if tier == "quick" else 6,
-         "stores": 60 if tier == "quick" else 360, "watchdog_s": TIMEOUT[tier] - 30}
+         "stores": 60 if tier == "quick" else 360, "mstage": 24 if tier == "quick" else 160, "watchdog_s": TIMEOUT[tier] - 30}
         for _ in range(NSHARDS[tier])
     ]
 
@@ -203,8 +205,51 @@ def nontrivial(recipe, np_vals, cfg, rec):
     return rec["exc"] is None and bool(rec.get("events"))
 
 
-EXTRA = ("block_writes", "chunk_sets", "arrays_checked", "chunks_expected", "multi_chunk_arrays", "store_calls", "target_block_writes")
+EXTRA = ("multi_stage_rechunks", "block_writes", "chunk_sets", "arrays_checked", "chunks_expected", "multi_chunk_arrays", "store_calls", "target_block_writes")
 GEN_KW = {"weights": {"rechunk": 14, "multi": 6, "reduce": 12, "linalg": 6, "cum": 5}}
+
+
+def mstage_case(rng):
+    """A direct rechunk whose plan most likely needs two or more stages (candidates are screened with the
+    planner itself - input selection only, the verdict never uses it)."""
+    import math
+    import warnings
+
+    for attempt in range(12):
+        nd = rng.choice([2, 2, 2, 3])
+        shape = [rng.randint(14, 56) if nd == 2 else rng.randint(6, 14) for _ in range(nd)]
+        src = [rng.randint(1, d) for d in shape]
+        tgt = [rng.randint(1, d) for d in shape]
+        if rng.random() < 0.85:
+            # thin chunks turned through 90 degrees: the geometry that needs intermediate stages
+            a, b = rng.sample(range(nd), 2)
+            src[a], tgt[b] = rng.randint(1, 2), rng.randint(1, 2)
+            src[b], tgt[a] = rng.randint(max(1, shape[b] // 4), shape[b]), rng.randint(max(1, shape[a] // 4), shape[a])
+        dt = rng.choice(["int64", "float64", "int32", "int8"])
+        item = {"int64": 8, "float64": 8, "int32": 4, "int8": 1}[dt]
+        biggest = max(math.prod(src), math.prod(tgt))
+        max_mem = int(item * biggest * rng.choice([1.05, 1.3, 1.6, 2.0, 4.0]))
+        try:
+            from cubed.core.rechunk import multistage_regular_rechunking_plan
+
+            with warnings.catch_warnings():
+                warnings.simplefilter("ignore")
+                stages = len(multistage_regular_rechunking_plan(tuple(shape), tuple(src), tuple(tgt), item, min(max_mem // 20, item * math.prod(shape)), max_mem))
+        except Exception:
+            stages = 0
+        if stages >= 2 or (attempt >= 3 and rng.random() < 0.1):
+            break
+    p = {"chunks": tgt}
+    r = rng.random()
+    if r < 0.7:
+        p["allow_irregular"] = False
+    elif r < 0.85:
+        p["allow_irregular"] = True
+    recipe = {"nodes": [{"in": [], "op": "leaf", "p": {"chunks": src, "dtype": dt, "seed": rng.getrandbits(40), "shape": shape, "src": "from_array"}},
+                        {"in": [0], "op": "rechunk", "p": p}], "outputs": [1]}
+    # the planner works with a fifth of the budget
+    cfg = {"executor": "seq", "optimize": False, "spec": {"allowed_mem": 5 * max_mem + 4}}
+    return recipe, cfg
 
 
 def run_shard(spec, workdir):
@@ -215,6 +260,36 @@ def run_shard(spec, workdir):
 
     res = _rc.run_cases(spec, workdir, prop=PROPERTY, judge=judge, extra_counters=EXTRA, choose_cfgs=choose_cfgs,
                         per_run=per_run, nontrivial=nontrivial, monitors=("block", "trace"), gen_kw=GEN_KW)
+    # third workload: regular-grid rechunks under budgets small enough to need intermediate stages
+    rng = random.Random(spec["seed"] + 29)
+    for k in range(spec.get("mstage", 40)):
+        recipe, cfg = mstage_case(rng)
+        np_vals = gen.np_eval(recipe)
+        wd = os.path.join(workdir, f"m{k}")
+        rec = runner.run_recipe(recipe, cfg, wd, monitors=("block", "trace"), **per_run(recipe, cfg))
+        res["evaluations"] += 1
+        res["counters"]["runs"] += 1
+        _rc.bump(res["hist"]["config"], "mstage")
+        if rec["phase"] == "skipped":
+            shutil.rmtree(wd, ignore_errors=True)
+            continue
+        if rec["exc"] is not None:
+            res["counters"]["raised"] += 1
+            _rc.bump(res["hist"]["exceptions"], f"{rec['phase']}:{rec['exc']['type']}")
+        else:
+            res["counters"]["completed"] += 1
+            nst = rec["plan"]["op_names"].count("rechunk")  # copy operations (one or two per stage)
+            _rc.bump(res["hist"]["ops"], f"rechunk-copies:{nst}")
+            if nst >= 3:
+                res["counters"]["multi_stage_rechunks"] += 1
+        viols = judge(recipe, np_vals, cfg, rec, res, wd) or []
+        for v in viols:
+            v.setdefault("property", PROPERTY)
+            v.setdefault("case", {"recipe": recipe, "cfg": cfg})
+        res["violations"].extend(viols)
+        if nontrivial(recipe, np_vals, cfg, rec):
+            res["nontrivial"].append(gen.rhash([recipe, cfg]))
+        shutil.rmtree(wd, ignore_errors=True)
     # second workload: store / to_zarr into user-supplied targets (existing arrays of any chunking, sharded, regions)
     rng = random.Random(spec["seed"] + 17)
     scratch = c11._rc.new_result(c11.EXTRA)
@@ -265,6 +340,7 @@ def finalize(tier, merged):
         "floors": [
             ("stored-chunk writes attributed to tasks", c.get("chunk_sets", 0), 15000 if tier == "quick" else 150000),
             ("produced arrays whose grid coverage was checked", c.get("arrays_checked", 0), 2500 if tier == "quick" else 25000),
+            ("direct rechunks planned with >= 3 copy operations (two or more stages)", c.get("multi_stage_rechunks", 0), 60 if tier == "quick" else 400),
             ("block writes into user-supplied store targets observed", c.get("target_block_writes", 0), 1500 if tier == "quick" else 15000),
         ],
         "assumptions": ASSUMPTIONS,
